@@ -402,6 +402,7 @@ fn stats_from_json(v: &serde_json::Value) -> Stats {
 /// the sweep of one build profile (child process): statistics to `out`
 pub fn child(prop: &str, tier: &str, only: Option<String>, out: &str) -> i32 {
     let run = Run::new(prop, tier, "model_checking", only);
+    bridge::rt::set_journal(&format!("{out}.journal"));
     let u = common::load();
     let thorough = run.thorough();
     let items = build_items(&u, &run);
@@ -463,6 +464,7 @@ pub fn run(prop: &str, tier: &str, only: Option<String>) -> i32 {
                 let v: serde_json::Value = serde_json::from_str(&std::fs::read_to_string(&out).expect("child stats")).expect("child stats json");
                 run.stats.merge(stats_from_json(&v));
                 let _ = std::fs::remove_file(&out);
+                let _ = std::fs::remove_file(format!("{out}.journal"));
             }
             Some(1) => {
                 // the child's watchdog fired: it printed the VIOLATION line itself
@@ -470,6 +472,10 @@ pub fn run(prop: &str, tier: &str, only: Option<String>) -> i32 {
                 return 1;
             }
             other => {
+                // what the child had found before it died
+                for v in bridge::rt::read_journal(&format!("{out}.journal")) {
+                    run.stats.violate(v.fingerprint, v.key, v.detail);
+                }
                 // the sweep process itself died (abort, stack overflow, OOM kill): for C05 that is
                 // a violation; either way the other profile is still swept
                 if prop == "C05" {
